@@ -34,6 +34,8 @@ type pureObjs struct {
 	raw    []byte                     // the bytes the image was parsed from (nil: signed in place)
 	dbobjs []*signature.SignatureList // the list objects of the database, in order, as the caller put them there
 	keep   map[string][]byte          // while non-nil: the byte slices returned by the first calls are kept here
+	pem    []byte                     // PEM text of the stranger's certificate: the bytes of the database's PEM-shaped X.509 entries (when it has any)
+	authT  [2]*signature.EFIVariableAuthentication2 // the descriptor of the signed update decoded behind an all-zero and an all-ones timestamp
 }
 
 // held remembers the slice a byte-returning method handed out (first call only, reference phase only)
@@ -50,8 +52,8 @@ func (o *pureObjs) held(m string, b []byte) []byte {
 // parsed image; the length of the database, the identity of the list objects it holds and every field of every list
 // (sigdb.go, goDbStr) - which no read-only method may change. Their reference values are taken BEFORE the first call.
 var pureMethods = []string{"img.Datadir", "db.Lists", "img.Hash", "img.Bytes", "img.Open", "img.Signatures", "img.Verify0", "img.Verify1",
-	"db.Bytes", "db.Marshal", "db.BytesExists0", "db.BytesExists1", "db.BytesExistsX509", "db.BytesExistsLast", "db.SigDataExists", "db.Exists", "upd.Marshal", "upd.Bytes",
-	"auth.Marshal", "auth.Verify0", "auth.Verify1"}
+	"db.Bytes", "db.Marshal", "db.BytesExists0", "db.BytesExists1", "db.BytesExistsX509", "db.BytesExistsLast", "db.SigDataExists", "db.Exists", "db.BytesExistsPEM", "db.ExistsPEM", "upd.Marshal", "upd.Bytes",
+	"auth.Marshal", "auth.Verify0", "auth.Verify1", "authZeroTime.Marshal", "authOnesTime.Marshal"}
 
 func h8(b []byte) string { s := sha256.Sum256(b); return hx(s[:8]) }
 
@@ -99,6 +101,14 @@ func (o *pureObjs) call(m string) string {
 		return fmt.Sprint(o.db.SigDataExists(signature.CERT_SHA256_GUID, &signature.SignatureData{Owner: guidFromWire(o.owners[0]), Data: o.data[0]}))
 	case "db.Exists":
 		return fmt.Sprint(o.db.Exists(signature.CERT_SHA256_GUID, o.lists[0]))
+	case "db.BytesExistsPEM": // the X.509 entry whose stored bytes are PEM text, asked for by exactly these bytes (false when the database holds none)
+		return fmt.Sprint(o.db.BytesExists(signature.CERT_X509_GUID, guidFromWire(o.owners[1]), o.pem))
+	case "db.ExistsPEM": // the same through the list-valued query, the queried list filled in by hand with the stored bytes
+		return fmt.Sprint(o.db.Exists(signature.CERT_X509_GUID, o.lists[1]))
+	case "authZeroTime.Marshal", "authOnesTime.Marshal":
+		var b bytes.Buffer
+		o.authT[map[byte]int{'Z': 0, 'O': 1}[m[4]]].Marshal(&b)
+		return h8(b.Bytes())
 	case "db.BytesExistsX509": // a query for the type of a list that is not the first one
 		return fmt.Sprint(o.db.BytesExists(signature.CERT_X509_GUID, guidFromWire(o.owners[0]), o.cert[0]))
 	case "auth.Marshal": // the decoded authentication descriptor of the signed update
@@ -195,6 +205,30 @@ func init() {
 			}
 			db.Append(signature.CERT_X509_GUID, guidFromWire(o.owners[0]), cert.Raw)
 		}
+		// a database may hold X.509 entries whose bytes are PEM TEXT: Append / AppendBytes store DER, but the decoder
+		// takes the entry bytes as they are (an .esl made from a .pem file) and so does AppendList of a list the
+		// caller filled in by hand. One such entry, or two of one size under different owners, in a list of their
+		// own behind the others - part of the decoded stream, or handed over with AppendList.
+		o.pem = pemOf(stranger.Raw)
+		if n := atoi(a["dbpem"]); n > 0 {
+			es := [][2][]byte{{o.owners[1], o.pem}}
+			if n > 1 {
+				es = append(es, [2][]byte{o.owners[0], o.pem})
+			}
+			if a["decoded"] == "1" {
+				d, err := signature.ReadSignatureDatabase(bytes.NewReader(append(db.Bytes(), encodeList(tX509, nil, len(o.pem)+16, es)...)))
+				if err != nil {
+					return "err", "read database with PEM-shaped entries"
+				}
+				db = &d
+			} else {
+				hand := &signature.SignatureList{SignatureType: signature.CERT_X509_GUID, ListSize: uint32(28 + len(es)*(len(o.pem)+16)), Size: uint32(len(o.pem) + 16), SignatureHeader: []byte{}}
+				for _, e := range es {
+					hand.Signatures = append(hand.Signatures, signature.SignatureData{Owner: guidFromWire(e[0]), Data: append([]byte{}, e[1]...)})
+				}
+				db.AppendList(hand)
+			}
+		}
 		// a database may hold a list WITHOUT signatures: one the caller emptied in place through its own pointer to
 		// the list (SignatureList.RemoveBytes / RemoveSignature take the entry out, the database keeps the list), or
 		// a new, still empty list the caller added with AppendList. The lists are put together with AppendList: the
@@ -243,14 +277,16 @@ func init() {
 		o.dbobjs = append([]*signature.SignatureList{}, *db...)
 		sl := signature.NewSignatureList(signature.CERT_SHA256_GUID)
 		sl.AppendBytes(guidFromWire(o.owners[0]), o.data[0])
-		o.lists = []*signature.SignatureList{sl}
+		o.lists = []*signature.SignatureList{sl, {SignatureType: signature.CERT_X509_GUID, ListSize: uint32(28 + len(o.pem) + 16), Size: uint32(len(o.pem) + 16), SignatureHeader: []byte{},
+			Signatures: []signature.SignatureData{{Owner: guidFromWire(o.owners[1]), Data: append([]byte{}, o.pem...)}}}}
 		// reference results: the first call of each method on the fresh objects; what the objects expose (img.Datadir,
 		// db.Lists) before any call
 		ref := map[string]string{}
 		var diffs []string
 		// the database's encoders are the first calls ever made on it, each followed by a look at the database; the
 		// signed update is made from it afterwards (SignEFIVariable serialises the value it is given)
-		for _, m := range []string{"db.Lists", "db.Bytes", "db.Lists", "db.Marshal", "db.Lists", "db.Bytes", "db.Marshal"} {
+		// (the membership queries for the PEM-shaped entry are asked before the first encoding and after it)
+		for _, m := range []string{"db.Lists", "db.BytesExistsPEM", "db.ExistsPEM", "db.Bytes", "db.Lists", "db.BytesExistsPEM", "db.Marshal", "db.Lists", "db.ExistsPEM", "db.Bytes", "db.Marshal"} {
 			got := o.call(m)
 			if want, ok := ref[m]; !ok {
 				ref[m] = got
@@ -259,7 +295,7 @@ func init() {
 				break
 			}
 		}
-		if ref["db.Bytes"] != ref["db.Marshal"] {
+		if _, both := ref["db.Marshal"]; both && ref["db.Bytes"] != ref["db.Marshal"] {
 			diffs = append(diffs, fmt.Sprintf("fresh database: Bytes() returns %s, Marshal() writes %s", ref["db.Bytes"], ref["db.Marshal"]))
 		}
 		_, upd, err := signature.SignEFIVariable(efivar.Db, db, key, cert)
@@ -272,6 +308,14 @@ func init() {
 		o.upd = upd
 		if o.auth, err = signature.ReadEFIVariableAuthencation2(bytes.NewReader(upd.Bytes())); err != nil {
 			return "err", "read descriptor"
+		}
+		// the same descriptor behind other timestamps - all-zero (a blob made without one, a value built as a literal)
+		// and all-ones: a value like any other, whose encoding is a function of the value
+		for k, fill := range []byte{0x00, 0xFF} {
+			blob := append(bytes.Repeat([]byte{fill}, 16), upd.Bytes()[16:]...)
+			if o.authT[k], err = signature.ReadEFIVariableAuthencation2(bytes.NewReader(blob)); err != nil {
+				return "err", "read descriptor behind a constant timestamp"
+			}
 		}
 		o.keep = map[string][]byte{}
 		for _, m := range pureMethods {
@@ -463,7 +507,11 @@ func init() {
 				note("after the caller overwrote the bytes of earlier destinations", z.Bytes(), first)
 			}
 		}
-		// and once more sequentially afterwards: nothing was consumed
+		// and once more sequentially afterwards: nothing was consumed - and, when the case says so, after a pause: the
+		// result of a read-only call on an unchanged value is the same whenever the call is made
+		if ms := atoi(a["pause"]); ms > 0 {
+			time.Sleep(time.Duration(ms) * time.Millisecond)
+		}
 		for _, m := range pureMethods {
 			if got := o.call(m); got != ref[m] {
 				diffs = append(diffs, fmt.Sprintf("after %s: %s != first result %s", m, got, ref[m]))
@@ -580,10 +628,10 @@ func c19Eval(c *Ctx, cs Case) {
 	}
 	res := w.Do("pure.run", map[string]string{"verif": c.VerifDir, "img": hx(img), "seed": fmt.Sprint(cs.I("seed2")), "nseq": fmt.Sprint(cs.I("nseq")),
 		"goroutines": fmt.Sprint(cs.I("goroutines")), "ncalls": fmt.Sprint(cs.I("ncalls")), "reparse": fmt.Sprint(cs.I("reparse")), "decoded": fmt.Sprint(cs.I("decoded")), "dbentries": fmt.Sprint(cs.I("dbentries")), "nsched": fmt.Sprint(cs.I("nsched")), "own": fmt.Sprint(cs.I("own")),
-		"dbempty": fmt.Sprint(cs.I("dbempty")), "dbemptypos": fmt.Sprint(cs.I("dbemptypos"))}, 120*time.Second)
-	c.Count(cs.Key(), true, fmt.Sprintf("pure/g%d/db%d/img=%s/emptylist=%s/%s", cs.I("goroutines"), 2+cs.I("dbentries"),
+		"dbempty": fmt.Sprint(cs.I("dbempty")), "dbemptypos": fmt.Sprint(cs.I("dbemptypos")), "dbpem": fmt.Sprint(cs.I("dbpem")), "pause": fmt.Sprint(cs.I("pause"))}, 120*time.Second)
+	c.Count(cs.Key(), true, fmt.Sprintf("pure/g%d/db%d/img=%s/emptylist=%s/pem-entries=%d/pause=%dms/%s", cs.I("goroutines"), 2+cs.I("dbentries"),
 		[]string{"signed-in-place", "reparsed", "reparsed-last-certificate-unpadded"}[cs.I("reparse")%3],
-		[]string{"none", "emptied-in-place", "appended-empty"}[cs.I("dbempty")%3]+[]string{"", "/front", "/middle", "/end"}[min(cs.I("dbempty"), 1)*(1+cs.I("dbemptypos")%3)], res.Class))
+		[]string{"none", "emptied-in-place", "appended-empty"}[cs.I("dbempty")%3]+[]string{"", "/front", "/middle", "/end"}[min(cs.I("dbempty"), 1)*(1+cs.I("dbemptypos")%3)], cs.I("dbpem"), cs.I("pause"), res.Class))
 	c.Sample(Case{"goroutines": cs.I("goroutines"), "ncalls": cs.I("ncalls"), "nseq": cs.I("nseq"), "result": clip(res.Out)})
 	fail := func(what string) {
 		c.Fail(Failure{Kind: "property", What: what, Case: cs, Go: clip(res.Class + " " + res.Out + " " + w.stderr.String())})
@@ -620,24 +668,25 @@ func c19Gen(c *Ctx) {
 		cs["own"] = int64(1)
 		cs["dbempty"] = int64((i + 1) % 3)        // a list without signatures: emptied in place; appended empty; none
 		cs["dbemptypos"] = int64((2*i + i/3) % 3) // in front of, between, behind the other lists
+		cs["dbpem"] = int64([]int{0, 1, 0, 2}[i%4])  // every second database also holds one / two X.509 entries whose bytes are PEM text
 		c19Eval(c, cs)
 	}
-	c19Eval(c, Case{"op": "pure", "path": "authenticode/testdata/test.pecoff", "seed2": int64(7), "nseq": int64(40), "goroutines": int64(8), "ncalls": ncalls, "reparse": int64(0), "decoded": int64(1), "dbentries": int64(198), "nsched": int64(120), "own": int64(1)})
+	c19Eval(c, Case{"op": "pure", "path": "authenticode/testdata/test.pecoff", "seed2": int64(7), "nseq": int64(40), "goroutines": int64(8), "ncalls": ncalls, "reparse": int64(0), "decoded": int64(1), "dbentries": int64(198), "nsched": int64(120), "own": int64(1), "dbpem": int64(1)})
 	// the repository binary once more, re-parsed from bytes whose last certificate is not padded, with the shorter
 	// schedule sweep; and small runs (no scheduled rounds) over the product of: kind of the list without signatures x
 	// its position x how the other lists came about, the image alternating between the two re-parsed forms
 	c19Shared = c19Worker(c)
 	defer func() { c19Shared.Close(); c19Shared = nil }()
-	c19Eval(c, Case{"op": "pure", "path": "authenticode/testdata/test.pecoff", "seed2": int64(11), "nseq": int64(40), "goroutines": int64(4), "ncalls": ncalls, "reparse": int64(2), "decoded": int64(0), "dbentries": int64(5), "nsched": int64(c.P(40, 120)), "own": int64(1), "dbempty": int64(1), "dbemptypos": int64(1)})
+	c19Eval(c, Case{"op": "pure", "path": "authenticode/testdata/test.pecoff", "seed2": int64(11), "nseq": int64(40), "goroutines": int64(4), "ncalls": ncalls, "reparse": int64(2), "decoded": int64(0), "dbentries": int64(5), "nsched": int64(c.P(40, 120)), "own": int64(1), "dbempty": int64(1), "dbemptypos": int64(1), "dbpem": int64(2), "pause": int64(1200)})
 	for k := 0; k < c.N(12, 48) && c.NFailures() < 4; k++ {
 		c19Eval(c, Case{"op": "pure", "path": "authenticode/testdata/test.pecoff", "seed2": int64(100 + k), "nseq": int64(40), "goroutines": int64(2 + k%3), "ncalls": ncalls, "reparse": int64(1 + (k/3)%2), "decoded": int64((k/6 + k) % 2), "dbentries": int64([]int{0, 1, 7, 30}[k%4]),
-			"nsched": int64(0), "own": int64(k % 2), "dbempty": int64(1 + k%2), "dbemptypos": int64((k / 2) % 3)})
+			"nsched": int64(0), "own": int64(k % 2), "dbempty": int64(1 + k%2), "dbemptypos": int64((k / 2) % 3), "dbpem": int64([]int{0, 1, 2}[(k/2+k)%3])})
 	}
 }
 
 func init() {
 	register("C19", &PropDef{
-		Rule:   "for each of several signed images (generated layouts and a repository binary; parsed-and-signed in place, re-parsed from its bytes, or re-parsed from bytes whose certificate table ends WITHOUT the alignment padding behind its last WIN_CERTIFICATE - the padding cut off and the directory Size lowered, the signer chosen so that the entry's length is no multiple of 8; the table still is the 8-aligned tail of the file), a database (built through Append, or decoded from an independently encoded stream; its SHA-256 list holds 2..1002 hashes in no particular order, followed by a certificate list; in two of three cases it also holds a list WITHOUT signatures - a SHA-256, SHA-1 or X.509 list the caller emptied in place through its own pointer with SignatureList.RemoveBytes / RemoveSignature, or a new empty list added with AppendList - in front of, between or behind the other lists) and a signed-update value: before any call the caller notes what the objects expose (img.Datadir; db.Lists = the length of the database, the identity and order of the list objects it holds, every field of every list); the database's Bytes and Marshal are the first calls ever made on it (Bytes, Marshal, Bytes, Marshal, a look at db.Lists after each; both must write the same bytes) and SignEFIVariable, which serialises the database it is given, must leave db.Lists as it was; then the 19 read-only methods (image: Hash, Bytes, Open, Signatures, Verify x2; database: Bytes, Marshal, BytesExists x4 incl. a type whose list is not the first and the last entry of the long list, SigDataExists, Exists; signed update: Marshal, Bytes; its decoded descriptor: Marshal, Verify x2) and the two observations img.Datadir and db.Lists are taken once for reference, then 40 times sequentially in random order, then from 2/4/8/16 goroutines (25..100 random calls each) on the SAME objects; then, on FRESHLY parsed copies of the signed image (one copy per round, parsed from the input the image was parsed from, so that the overlapping calls are the first ever made on the object), each method as the first and only call on a copy of its own must agree with one copy asked for everything in turn, and every ordered pair of the six image methods and 12 random triples are run by two / three goroutines under a deterministic interleaving: the copy is parsed through a caller-supplied io.ReaderAt that makes the goroutines take turns at read granularity (sched.go) - a hand-over at every read; the first call held inside its first read until the second has returned; random turns of 0..3 reads - and every call, and every method once more after the round, must return what the call returns alone on a copy parsed from the same bytes (120 rounds per image); then the caller treats what it was handed as its own: it overwrites the slices returned by Hash, Bytes (image, database, signed update) and the certificate data of the entries listed by Signatures, and for each Marshal (signed update, database, descriptor) it marshals into an empty buffer, resets that buffer and reuses it for other data, marshals behind 3 bytes already in the destination, marshals into two buffers and lets each owner append 8 bytes of its own, and overwrites those destinations in place - after each of which the methods of the object must answer as at first, each destination must hold exactly (its old content,) the first encoding (and its owner's trailer); then every method and observation once more; every result must equal the first, the byte slices returned by the first Hash / Bytes / Marshal calls, held throughout, must still read the same at the end, and a second parse of the input of a re-parsed image, only ever serialised, must give the same Bytes() and Datadir as the image that answered all the calls. Besides the 6 generated images and the repository binary with the full sweep: the repository binary re-parsed without the last padding (40 scheduled rounds) and 12 small runs (no scheduled rounds; 2..4 goroutines) over the product kind of list without signatures x its position x how the other lists came about, the image alternating between the two re-parsed forms; these 13 share one worker process. The worker is the -race build, so any data race aborts the run. Every case is non-trivial; distinct = distinct (image, schedule seed, goroutine count).",
+		Rule:   "for each of several signed images (generated layouts and a repository binary; parsed-and-signed in place, re-parsed from its bytes, or re-parsed from bytes whose certificate table ends WITHOUT the alignment padding behind its last WIN_CERTIFICATE - the padding cut off and the directory Size lowered, the signer chosen so that the entry's length is no multiple of 8; the table still is the 8-aligned tail of the file), a database (built through Append, or decoded from an independently encoded stream; its SHA-256 list holds 2..1002 hashes in no particular order, followed by a certificate list; in two of three cases it also holds a list WITHOUT signatures - a SHA-256, SHA-1 or X.509 list the caller emptied in place through its own pointer with SignatureList.RemoveBytes / RemoveSignature, or a new empty list added with AppendList - in front of, between or behind the other lists; every second database also holds, in a list of their own, one or two X.509 entries whose stored bytes are PEM TEXT - which Append / AppendBytes never store but the decoder takes as they are and AppendList takes from a caller who filled the list in by hand: part of the decoded stream, or a hand-built list handed to AppendList) and a signed-update value: before any call the caller notes what the objects expose (img.Datadir; db.Lists = the length of the database, the identity and order of the list objects it holds, every field of every list); the database's Bytes and Marshal are the first calls ever made on it (Bytes, Marshal, Bytes, Marshal, a look at db.Lists after each; both must write the same bytes; the two membership queries for the PEM-shaped entry are asked before the first encoding and between the encodings) and SignEFIVariable, which serialises the database it is given, must leave db.Lists as it was; then the 23 read-only methods (image: Hash, Bytes, Open, Signatures, Verify x2; database: Bytes, Marshal, BytesExists x5 incl. a type whose list is not the first, the last entry of the long list and an X.509 entry asked for by PEM text, SigDataExists, Exists x2 incl. a hand-filled list holding that PEM text; signed update: Marshal, Bytes; its decoded descriptor: Marshal, Verify x2; the same descriptor decoded behind an ALL-ZERO and behind an all-ones timestamp - a blob made without a timestamp, a value built as a literal: Marshal) and the two observations img.Datadir and db.Lists are taken once for reference, then 40 times sequentially in random order, then from 2/4/8/16 goroutines (25..100 random calls each) on the SAME objects; then, on FRESHLY parsed copies of the signed image (one copy per round, parsed from the input the image was parsed from, so that the overlapping calls are the first ever made on the object), each method as the first and only call on a copy of its own must agree with one copy asked for everything in turn, and every ordered pair of the six image methods and 12 random triples are run by two / three goroutines under a deterministic interleaving: the copy is parsed through a caller-supplied io.ReaderAt that makes the goroutines take turns at read granularity (sched.go) - a hand-over at every read; the first call held inside its first read until the second has returned; random turns of 0..3 reads - and every call, and every method once more after the round, must return what the call returns alone on a copy parsed from the same bytes (120 rounds per image); then the caller treats what it was handed as its own: it overwrites the slices returned by Hash, Bytes (image, database, signed update) and the certificate data of the entries listed by Signatures, and for each Marshal (signed update, database, descriptor) it marshals into an empty buffer, resets that buffer and reuses it for other data, marshals behind 3 bytes already in the destination, marshals into two buffers and lets each owner append 8 bytes of its own, and overwrites those destinations in place - after each of which the methods of the object must answer as at first, each destination must hold exactly (its old content,) the first encoding (and its owner's trailer); then every method and observation once more; every result must equal the first, the byte slices returned by the first Hash / Bytes / Marshal calls, held throughout, must still read the same at the end, and a second parse of the input of a re-parsed image, only ever serialised, must give the same Bytes() and Datadir as the image that answered all the calls. Besides the 6 generated images and the repository binary with the full sweep: the repository binary re-parsed without the last padding (40 scheduled rounds) and 12 small runs (no scheduled rounds; 2..4 goroutines) over the product kind of list without signatures x its position x how the other lists came about, the image alternating between the two re-parsed forms; these 13 share one worker process; in one of them the final round of all methods is made after a PAUSE of 1.2 s (the result of a read-only call on an unchanged value is the same whenever the call is made; the long runs spread their calls over several seconds anyway). The worker is the -race build, so any data race aborts the run. Every case is non-trivial; distinct = distinct (image, schedule seed, goroutine count).",
 		Assume: []string{"data-race freedom under the Go memory model is a runtime fact: the race detector observes the schedules that happen to occur in the sampled runs"},
 		Eval:   c19Eval, Gen: c19Gen,
 	})
